@@ -50,7 +50,14 @@ pub fn damaged_image(b: &crate::indep::build::Built, damage: &Option<(usize, u64
     let mut img = b.image.clone();
     if let Some((i, ps)) = damage {
         if let Some(inf) = b.infos.get(*i % b.infos.len().max(1)) {
-            if inf.csize > 0 {
+            if (ps >> 40) % 4 == 0 && inf.data_start > inf.header_start {
+                // the local header instead of the data (signature, lengths, name): an open that is refused, or that
+                // lands on the wrong bytes, must be refused / land there for every handle and every time
+                let p = b.abs(inf.header_start + (ps >> 8) % (inf.data_start - inf.header_start)) as usize;
+                if p < img.len() {
+                    img[p] ^= 1 << (ps % 8);
+                }
+            } else if inf.csize > 0 {
                 let p = (inf.data_start + ps % inf.csize) as usize;
                 if p < img.len() {
                     img[p] ^= 1 << (ps % 8);
